@@ -107,12 +107,11 @@ class ThreadingShim:
 
 class Det:
     def __init__(self, filename, lines, ret_funcs):
-        self.file = filename
-        self.lines = set(lines)
+        self.marks = {filename: set(lines)}     # file -> marked lines (more files: add_file)
         self.ret = set(ret_funcs)
         self.ctl = threading.Semaphore(0)
         self.recs: dict[str, Rec] = {}
-        self.counts = {"M": 0, "U": 0}
+        self.counts = {"M": 0, "U": 0, "A": 0}
         self.aborting = False
 
     # -- registration / tracing (called in controlled threads) ---------------
@@ -120,7 +119,8 @@ class Det:
         if th.fixed_name:
             name = th.fixed_name
         else:
-            kind = "U" if getattr(th.target_fn, "__name__", "") == "_submission_thread" else "M"
+            kind = {"_submission_thread": "U", "_monitor_stale_jobs": "A"}.get(
+                getattr(th.target_fn, "__name__", ""), "M")
             name = f"{kind}{self.counts[kind]}"
             self.counts[kind] += 1
         rec = Rec(name, th)
@@ -132,13 +132,16 @@ class Det:
         return t.rec if isinstance(t, CThread) else None
 
     def trace(self, frame, event, arg):
-        if frame.f_code.co_filename != self.file:
+        if frame.f_code.co_filename not in self.marks:
             return None
         return self.local
 
+    def add_file(self, filename, lines):
+        self.marks[filename] = set(lines)
+
     def local(self, frame, event, arg):
         if event == "line":
-            if frame.f_lineno in self.lines:
+            if frame.f_lineno in self.marks.get(frame.f_code.co_filename, ()):
                 self.pause(("line", frame.f_lineno))
         elif event == "return" and frame.f_code.co_name in self.ret:
             self.pause(("ret", frame.f_code.co_name))
@@ -291,10 +294,15 @@ class Adapter:
         if have != want:
             raise RuntimeError(f"{self.modname} imported from {have}, expected {want} (set PYTHONPATH)")
         lines = []
+        self.arr = info.get("arr")      # arrayer mode: dict(locked=..., lines=..., file=...) from translate_counter
         for label, ls in info["lines"].items():
-            if label not in ("ret", "lock"):
-                lines += ls
-        self.det = Det(self.mod.__file__, lines, info["lines"]["ret"])
+            if label in ("ret", "lock") or (self.arr and label not in ("guard", "snap", "pop")):
+                continue
+            lines += ls
+        # arrayer mode: a monitor's way out (stop, join, return) and _start are not scheduling points, so
+        # the monitor-exit race (known finding) cannot occur and any loss has another cause
+        self.det = Det(self.mod.__file__, lines, [] if self.arr else info["lines"]["ret"])
+        self.repo = repo
         self.tmp = tempfile.mkdtemp(prefix="rv_c10_")
         self.sched = FakeScheduler(self.tmp)
         self.stack = contextlib.ExitStack()
@@ -307,10 +315,37 @@ class Adapter:
         self.patch(self.mod, "threading", ThreadingShim(self.det))
         self.patch(self.mod, "time", TimeShim(self.det, bool(self.info.get("fallback"))))
         self.patch(self.mod, "parse_job_result", lambda prefix, job, *a, **k: (job.n, True))
+        if self.arr:
+            ja = importlib.import_module("redun.job_array")
+            want = str((self.repo / self.arr["file"]).resolve())
+            if str(ja.__file__) != want:
+                raise RuntimeError(f"redun.job_array imported from {ja.__file__}, expected {want}")
+            self.det.add_file(ja.__file__, self.arr["lines"]["idle"])
+            self.patch(ja, "threading", ThreadingShim(self.det))
+            if not self.arr["locked"]:
+                det = self.det
+                dec_lines = set(self.arr["lines"]["dec"])
+
+                def hooked_len(obj):
+                    # `self.num_pending -= len(jobs)`: num_pending has been read, not yet stored -
+                    # the only point inside that statement where CPython can switch threads
+                    f = sys._getframe(1)
+                    if f.f_code.co_name == "submit_pending_jobs" and f.f_lineno in dec_lines \
+                            and det.current() is not None:
+                        det.pause(("len", f.f_lineno))
+                    return len(obj)
+                self.stack.enter_context(mock.patch.object(ja, "len", hooked_len, create=True))
         self.build()
         if self.info.get("locked"):
             self.ex._lock = CLock(self.det)
+        if self.arr:
+            self.ex.arrayer._lock = CLock(self.det)
         return self
+
+    def arr_cfg(self, k8s=False):
+        if self.arr:
+            return {"min_array_size": 100, "max_array_size": 1000, "job_stale_time": -1}
+        return {"min_array_size": 0, "max_array_size": 0} if k8s else {"min_array_size": 0}
 
     def close(self):
         try:
@@ -331,10 +366,14 @@ class Adapter:
         queue = [j.n for j in getattr(ex, self.queue_attr)] if self.queue_attr else []
         mons = sorted((n for n in self.det.recs if n[0] == "M"), key=lambda n: int(n[1:]))
         subs = sorted((n for n in self.det.recs if n[0] == "U"), key=lambda n: int(n[1:]))
-        return dict(flag=bool(getattr(ex, self.flag_attr)), queue=queue, tracked=tracked,
-                    reported=list(self.sched.reported), err=self.sched.err,
-                    mons=[self.det.recs[n].thread.is_alive() for n in mons],
-                    subs=[self.det.recs[n].thread.is_alive() for n in subs])
+        o = dict(flag=bool(getattr(ex, self.flag_attr)), queue=queue, tracked=tracked,
+                 reported=list(self.sched.reported), err=self.sched.err,
+                 mons=[self.det.recs[n].thread.is_alive() for n in mons],
+                 subs=[self.det.recs[n].thread.is_alive() for n in subs])
+        if self.arr:
+            o["held"] = [j.n for v in ex.arrayer.pending.values() for j in v]
+            o["num_pending"] = ex.arrayer.num_pending
+        return o
 
 
 class DockerAd(Adapter):
@@ -367,7 +406,7 @@ class BatchAd(Adapter):
         self.patch(m, "get_job_log_stream", lambda job, aws_region=None: None)
         self.ex = m.AWSBatchExecutor("b", scheduler=self.sched, config=section(
             {"image": "img", "queue": "q", "s3_scratch": self.tmp + "/s3", "aws_region": "us-west-2",
-             "job_monitor_interval": 0, "code_package": False, "min_array_size": 0, "debug_scratch": self.tmp + "/dbg"}))
+             "job_monitor_interval": 0, "code_package": False, **self.arr_cfg(), "debug_scratch": self.tmp + "/dbg"}))
         self.ex.gather_inflight_jobs = lambda: None
 
 
@@ -397,7 +436,7 @@ class K8sAd(Adapter):
         self.patch(m, "get_k8s_job_pods", lambda core, name: [])
         self.ex = m.K8SExecutor("k", scheduler=self.sched, config=section(
             {"image": "img", "scratch": self.tmp, "type": "k8s", "job_monitor_interval": 0,
-             "code_package": False, "min_array_size": 0, "max_array_size": 0}))
+             "code_package": False, **self.arr_cfg(k8s=True)}))
         self.ex.gather_inflight_jobs = lambda: None
 
 
@@ -421,7 +460,7 @@ class GcpAd(Adapter):
                    lambda client=None, task_name=None: SimpleNamespace(name=task_name, status=SimpleNamespace(state=State.SUCCEEDED)))
         self.ex = m.GCPBatchExecutor("g", scheduler=self.sched, config=section(
             {"image": "img", "project": "p", "region": "r", "gcs_scratch": self.tmp + "/gcs",
-             "job_monitor_interval": 0, "code_package": False, "min_array_size": 0, "debug_scratch": self.tmp + "/dbg"}))
+             "job_monitor_interval": 0, "code_package": False, **self.arr_cfg(), "debug_scratch": self.tmp + "/dbg"}))
         self.ex.gather_inflight_jobs = lambda: None
 
 
